@@ -91,14 +91,14 @@ func c06Probes(thorough bool) (out [][]byte) {
 		return b
 	}
 	out = append(out,
-		full,                 // valid minimal query
-		hdr(1, 0, 0, 0),      // header only, declares one question
-		full[:12+6],          // header + half a name
-		withCounts(1, 0, 0),  // complete question, declares an answer it does not carry
-		withCounts(0, 0, 1),  // declares an additional (OPT) record it does not carry
-		withCounts(0, 1, 0),  // declares an authority record
-		hdr(2, 0, 0, 0),      // header only, two questions
-		full[:len(full)-1],   // cut in the qclass
+		full,                // valid minimal query
+		hdr(1, 0, 0, 0),     // header only, declares one question
+		full[:12+6],         // header + half a name
+		withCounts(1, 0, 0), // complete question, declares an answer it does not carry
+		withCounts(0, 0, 1), // declares an additional (OPT) record it does not carry
+		withCounts(0, 1, 0), // declares an authority record
+		hdr(2, 0, 0, 0),     // header only, two questions
+		full[:len(full)-1],  // cut in the qclass
 	)
 	if thorough {
 		for cut := 12; cut < len(full); cut++ {
@@ -187,8 +187,8 @@ type c06Stream struct {
 	r *bytes.Reader
 }
 
-func (s *c06Stream) Read(p []byte) (int, error)         { return s.r.Read(p) }
-func (s *c06Stream) SetReadDeadline(time.Time) error    { return nil }
+func (s *c06Stream) Read(p []byte) (int, error)      { return s.r.Read(p) }
+func (s *c06Stream) SetReadDeadline(time.Time) error { return nil }
 
 // ---- Paths -----------------------------------------------------------------
 
@@ -404,6 +404,91 @@ func TestVerifC06Server(t *testing.T) {
 
 		return nil
 	})
+	// One plain-DNS server object receives over UDP and TCP: histories that
+	// mix the two, among them TCP frames that end before their announced
+	// length (the read-error path), then a probe over either.
+	type mixedEvent struct {
+		kind string // "udp", "tcp", "tcp-cut"
+		msg  int    // index into priors; for "tcp-cut" the announced length
+	}
+	var mixedAlpha []mixedEvent
+	for i := range priors {
+		mixedAlpha = append(mixedAlpha, mixedEvent{"udp", i}, mixedEvent{"tcp", i})
+	}
+	for _, l := range []int{1, 12, 20, 40} {
+		mixedAlpha = append(mixedAlpha, mixedEvent{"tcp-cut", l})
+	}
+	mixedFeed := func(s *ServerDNS, h *c06Handler, kind string, msg []byte, announced int) string {
+		switch kind {
+		case "udp":
+			return (&c06UDP{s: s, h: h}).feed(msg)
+		case "tcp":
+			return (&c06TCP{s: s, h: h}).feed(msg)
+		default:
+			// The frame announces `announced` octets and carries 3.
+			framed := []byte{byte(announced >> 8), byte(announced), 0xab, 0xcd, 0x01}
+			conn := &c06Conn{r: bytes.NewReader(framed)}
+			wg := &sync.WaitGroup{}
+			err := s.acceptTCPMsg(conn, wg, &sync.Mutex{}, time.Second, syncutil.EmptySemaphore{})
+			wg.Wait()
+			c06Wait(s)
+
+			return fmt.Sprintf("err=%v", err != nil)
+		}
+	}
+	maxMixed := vrt.Pick(r, 2, 3)
+	r.Bound("server_mixed_max_prior_events", maxMixed)
+	vrt.Part(r, "server-mixed", func(emit func(c06MixedCase)) {
+		vrt.Sequences(len(mixedAlpha), 1, maxMixed, func(seq []int) {
+			for _, pk := range []string{"udp", "tcp"} {
+				for pi := range probes {
+					emit(c06MixedCase{Priors: append([]int{}, seq...), ProbeOver: pk, Probe: pi, ProbeHex: fmt.Sprintf("%x", probes[pi])})
+				}
+			}
+		})
+	}, func(c c06MixedCase) []vrt.Finding {
+		n++
+		if n%200 == 0 {
+			runtime.GC()
+		}
+		ws, wh := newC06DNS()
+		var hist []string
+		for _, ei := range c.Priors {
+			e := mixedAlpha[ei]
+			if e.kind == "tcp-cut" {
+				mixedFeed(ws, wh, e.kind, nil, e.msg)
+				hist = append(hist, fmt.Sprintf("tcp frame announcing %d octets, cut after 3", e.msg))
+			} else {
+				mixedFeed(ws, wh, e.kind, priors[e.msg], 0)
+				hist = append(hist, fmt.Sprintf("%s message %d", e.kind, e.msg))
+			}
+			// A second message over UDP makes the pools hand the same buffer
+			// out again, as a busy server does.
+		}
+		got := mixedFeed(ws, wh, c.ProbeOver, probes[c.Probe], 0)
+		got2 := mixedFeed(ws, wh, c.ProbeOver, probes[c.Probe], 0)
+		ws.workerPool.Release()
+		fs, fh := newC06DNS()
+		want := mixedFeed(fs, fh, c.ProbeOver, probes[c.Probe], 0)
+		fs.workerPool.Release()
+		r.Trans(len(c.Priors) + 3)
+		r.Class("mixed " + c.ProbeOver + " " + strings.SplitN(want, " ", 2)[0])
+		r.State("mixed" + c.ProbeOver + want)
+		for _, g := range []string{got, got2} {
+			if g != want {
+				return vrt.F("decode-depends-on-history/mixed-"+c.ProbeOver, "probe %x over %s after %v on the same server:\n   warmed server: %s\n   fresh server : %s", probes[c.Probe], c.ProbeOver, hist, g, want)
+			}
+		}
+
+		return nil
+	})
 	r.Finish()
 	os.Exit(0)
+}
+
+type c06MixedCase struct {
+	Priors    []int  `json:"prior_events"`
+	ProbeOver string `json:"probe_over"`
+	Probe     int    `json:"probe"`
+	ProbeHex  string `json:"probe_hex"`
 }
